@@ -1559,7 +1559,10 @@ package asm
 //@   loop 1 invariant true
 //@   loop 1 modifies line
 //@   loop 2 invariant len(xb) == ite(rangeindex < 0, 0, 6*(rangeindex+1)-1)
-//@   loop 2 invariant all(j, int, 0 <= j && j <= rangeindex ==> xb[6*j] == 48 && xb[6*j+1] == 120 && xb[6*j+4] == 44 && (j > 0 ==> xb[6*j-1] == 32))
+//@   loop 2 invariant all(j, int, 0 <= j && j <= rangeindex ==> xb[6*j] == 48)
+//@   loop 2 invariant all(j, int, 0 <= j && j <= rangeindex ==> xb[6*j+1] == 120)
+//@   loop 2 invariant all(j, int, 0 <= j && j <= rangeindex ==> xb[6*j+4] == 44)
+//@   loop 2 invariant all(j, int, 0 < j && j <= rangeindex ==> xb[6*j-1] == 32)
 //@   loop 2 invariant all(j, int, 0 <= j && j <= rangeindex ==> xb[6*j+2] == hextable[d[j]>>4&15])
 //@   loop 2 invariant all(j, int, 0 <= j && j <= rangeindex ==> xb[6*j+3] == hextable[d[j]&15])
 //@   loop 2 modifies oa, xb
